@@ -167,6 +167,16 @@ impl DailyLogsUpdate {
             ",
         )?;
 
+        let mut delete_empty_stmt = conn.prepare_cached(
+            "
+            DELETE FROM _daily_log
+            WHERE
+                room_id = ? AND
+                entity = ? AND
+                date = ?
+            ",
+        )?;
+
         //the rows to process are read before any of them is updated:
         //SQLite does not define which rows a running SELECT returns once its table is modified
         #[allow(clippy::type_complexity)]
@@ -227,12 +237,23 @@ impl DailyLogsUpdate {
                     entry_number += 1;
                 }
 
-                let daily_hash = if hasher.count() == 0 {
-                    None
-                } else {
-                    let hash = hasher.finalize();
-                    Some(hash.as_bytes().to_vec())
-                };
+                if entry_number == 0 {
+                    //a day that does not contain any row anymore is not part of the log:
+                    //the log, including the history chain, only depends on the rows that are stored.
+                    //the chain continues from the previous entry
+                    delete_empty_stmt.execute((&room, &entity, date))?;
+                    self.add_log(DailyLog {
+                        room_id: room,
+                        entity,
+                        date,
+                        entry_number,
+                        daily_hash: None,
+                        history_hash: None,
+                        need_recompute: false,
+                    });
+                    continue;
+                }
+                let daily_hash = Some(hasher.finalize().as_bytes().to_vec());
 
                 let history_hash = if previous_room.eq(&room) && previous_entity.eq(&entity) {
                     if let Some(previous) = &previous_history {
